@@ -2,6 +2,122 @@
 HOOK_COMMITS = []
 NOT_APPLICABLE = {}
 CLAIMS = {
+ "C01": {
+  "design_ref": "DESIGN.md 4 C01",
+  "text": "Bounded model checking of the whole real qmail-queue.c main() (+triggerpull, open_excl, fmtqfn) against a file-system model: for every envelope "
+          "of up to E bytes (E=5 quick, 7 thorough; any bytes, EOF and read error anywhere), every body length up to B, ANY number of failing system calls "
+          "and EVERY crash instant (invariant evaluated at the entry of every system call on fsynced data only): todo/N appears only when mess/N and intd/N "
+          "are complete, flushed and fsynced; exit 0 iff todo/N exists; documented exit codes; alarm(DEATH<OSSIFIED) before any file; content harness: stored "
+          "bytes equal Received line + body and the envelope as supplied; address boundary 1001..1004 bytes executed with the real constant.",
+  "note": "user-level buffering replaced by an ideal buffered stream (pending counter, early write-out at any put) whose contract is proved on the real "
+          "substdio in C20; directory operations synchronous; pid/uid/time/inode concrete; boundary runs use one concrete filler byte; bounds E,B.",
+ },
+ "C02": {
+  "design_ref": "DESIGN.md 4 C02, 6",
+  "text": "Schedules of whole processes are NOT explored (out of reach for the solver on this code). Decided instead, per program step on the files of one "
+          "message, with symbolic pre-states / all failures / all crash instants: injector creates mess (named by its own inode) -> intd -> todo in that order and "
+          "leaves only S1/S2 leftovers (C01 harness); daemon preprocessing removes/re-creates/fsyncs info, local, remote BEFORE asking for todo/N removal; "
+          "messdone removes info only after local, remote, todo were seen ENOENT and asks foop/N only afterwards; job_close unlinks a channel file only at EOF "
+          "with nothing left; cleanup collects only mess files older than OSSIFIED with info and todo ENOENT; the cleaner unlinks exactly intd/N+mess/N or "
+          "intd/N+todo/N; a second qmail-send exits 111 at lock/sendmutex before touching anything.",
+  "note": "claim is per transition (rely/guarantee style); that the invariant holds initially, that no fourth program writes the queue, kernel inode "
+          "uniqueness and link() atomicity are assumed; interleavings are covered only through the per-step obligations; bounds as in C01/C03/C18.",
+ },
+ "C03": {
+  "design_ref": "DESIGN.md 4 C03",
+  "text": "Per-transition bounded model checking of the real qmail-send.c from arbitrary (symbolic) daemon states: del_dochan on arbitrary report bytes "
+          "(K marks; D appends the bounce note THEN marks; Z nothing unless expired; garbled/out-of-range/unused nothing; lost spawner nothing); pass_dochan "
+          "(one del_start per T record at its own offset, read errors never count as EOF); job_close (channel file unlinked iff EOF and numtodo==0, else "
+          "re-queued); messdone (info removed only after local/remote/todo ENOENT and bounce injected; every failure re-schedules); pqadd (restart rebuilds "
+          "schedules); todo_do (one T record per envelope recipient in exactly one channel file, fsynced before todo is removed). Every system call may fail.",
+  "note": "callees cut to observing stubs and verified separately (listed in evidence.cuts); whole histories are covered only by induction over these "
+          "steps from arbitrary valid states; liveness clauses are not decided; bounds: reports <= 5..8 bytes, envelope <= 6..8 bytes, 3 slots, 2 jobs.",
+ },
+ "C04": {
+  "design_ref": "DESIGN.md 4 C04",
+  "text": "Per-transition bounded model checking: pass_dochan never starts a delivery for a D record and takes the entry off the queue while its job is "
+          "open; markdone writes exactly one 'D' at the recipient's own offset; del_start/del_dochan keep concurrencyused == slots in use <= concurrency from "
+          "any valid state; nothing is started after TERM or without a free slot; start-up clamps concurrency to min(configured, spawner byte) (real main() "
+          "prologue).",
+  "note": "'delivered exactly once without crashes' follows on paper from these steps, it is not checked end to end; 3 slots, 2 jobs, reports <= 5..8 bytes.",
+ },
+ "C09": {
+  "design_ref": "DESIGN.md 4 C09",
+  "text": "Bounded model checking of qmail-remote.c smtpcode() against a reference RFC 5321 reply reader on fully symbolic server streams (<=12 bytes quick), "
+          "smtp() as a whole over per-phase symbolic reply codes / continuation lines / disconnects for 1..2 recipients (r/h/s per recipient in order, K/Z/D "
+          "verdict, 'Possible duplicate' iff after the final dot), dropped()/quit(), and qmail-rspawn.c report() for every wait status and every output of "
+          "up to 8 bytes (K relayed only for exit 0, no crash, accepted recipient and a K record; no read beyond the output).",
+  "note": "blast cut to a contract (C06); timeoutread/timeoutwrite stubbed; DNS/MX selection, TCP time-outs and tcpto outside; bounds in evidence.",
+ },
+ "C12": {
+  "design_ref": "DESIGN.md 4 C12",
+  "text": "Bounded model checking of qmail-local.c: mailfile() + gfrom.c round trip through a reference mbox(5) reader for every message of up to 8 bytes "
+          "(11 thorough); any single failing put/flush/fsync/read => ftruncate to the length at lock time and exit 111, lock before seek_end; "
+          "maildir_child() against a file model with crash check at every system call (new/ entry implies complete+synced, exit 0 iff linked); parent "
+          "status mapping for all 65536 wait statuses; From_ line sanitising for senders up to 6 bytes.",
+  "note": "concurrent mbox deliveries are covered only through the lock protocol (flock semantics assumed); lock_ex failing for other reasons than the "
+          "alarm is outside the fault list; 1024-byte buffer boundaries only through the C20 layer-0 lemmas; time/pid/host concrete.",
+ },
+ "C13": {
+  "design_ref": "DESIGN.md 4 C13",
+  "text": "Bounded model checking of the real qmail-local.c main(): .qmail search order and path safety for every extension up to 5 bytes over 3 files with "
+          "symbolic names/permissions and symbolic home mode; whole instruction loop against a reference dot-qmail(5) interpreter for every .qmail body of up "
+          "to 9 bytes; mailprogram() for all 65536 wait statuses; bouncexf() for headers up to 8 bytes; mailforward(); Return-Path/Delivered-To newline safety.",
+  "note": "what /bin/sh does is outside; quote2 over-approximated in the envelope-lines harness (C17 covers quote.c); NUL bytes in .qmail excluded; "
+          "judgements (forwards before exit 99 honoured, '/' in ext only descends) recorded in harness comments.",
+ },
+ "C14": {
+  "design_ref": "DESIGN.md 4 C14",
+  "text": "Bounded model checking of qmail-send.c addbounce() (recipient <= 2..6 bytes, report <= 8..12 bytes, any bytes: exactly one paragraph, no forged "
+          "<recipient>: paragraph possible), injectbounce() for every sender form (ordinary, VERP -@[], empty -> double bounce with #@[], #@[] -> discard; "
+          "bounce file unlinked only after qmail_close returned \"\"), the three-step loop-freedom argument, and the real qmail.c envelope protocol.",
+  "note": "constmap cut to a one-entry table; quote/quote2 header formatting cut (C17); body copy covered by layer-0 lemmas; bounds in evidence.",
+ },
+ "C15": {
+  "design_ref": "DESIGN.md 4 C15",
+  "text": "squareroot() exact for EVERY age 0..2^32-1 (one SAT query, kissat); nextretry() strictly in the future and equal to birth+(floor(sqrt(age))+10|20)^2 "
+          "for all birth, now < 2^40 using the proved sqrt contract; prioq insert/delmin/min from ANY valid heap of n elements, n = 0..12 (20 thorough): heap "
+          "order, multiset preservation, min is earliest-due (inductive step); due-time gate, flagdying, restart schedule and ALRM handled in the C03 "
+          "pass_dochan/pqadd/del_dochan obligations.",
+  "note": "ages >= 2^32 s outside the property's domain; heaps larger than the grid; 'retried promptly' only as the select-timeout bound in C16.",
+ },
+ "C16": {
+  "design_ref": "DESIGN.md 4 C16",
+  "text": "Bounded model checking of the REAL qmail-send.c main() loop + todo_do + trigger.c against an environment automaton for 1..2 injectors advanced "
+          "by a symbolic number of steps inside every daemon system call (= every interleaving at system-call granularity, K=5..6 loop iterations): whenever "
+          "the daemon blocks, every published todo entry was seen by the scan or the trigger descriptor is readable (no lost wake-up); no busy rescanning "
+          "once injectors are quiet; select timeout 0 iff work is pending or due, otherwise positive and <= earliest-due - now + SLEEP_FUZZ.",
+  "note": "FIFO and directory-stream semantics are a model (stated in evidence.stubs); injector step order is what C01 proves about qmail-queue; clock "
+          "stands still in the lost-wake-up query; other subsystems of main() cut; HASNAMEDPIPEBUG1 variant not compiled.",
+ },
+ "C18": {
+  "design_ref": "DESIGN.md 4 C18",
+  "text": "Bounded model checking of the whole real qmail-clean.c main() for every request stream on a grid of concrete lengths (one request of 1..10 "
+          "bytes, two requests, unterminated tails; all byte values): exactly one status byte per request, unlink only for well-formed foop/N|todo/N requests "
+          "and only on intd/N, mess/S/N, todo/N of that decimal number, malformed requests change nothing; qmail-send del_dochan on arbitrary report bytes "
+          "(shared with C03).",
+  "note": "cleanuppid cut (touches pid/ only); digit strings that overflow unsigned long are beyond the length grid; spawn.c command parsing: see C20/C11 "
+          "kernels where built.",
+ },
+ "C05": {
+  "design_ref": "DESIGN.md 4 C05",
+  "text": "Bounded model checking of the real qmail-smtpd.c blast()/put/straynewline against a reference RFC 5321 receiver for EVERY byte stream of up to "
+          "14 bytes (20 thorough): bytes handed to the queue, bytes consumed, 451 iff a bare LF precedes the terminator; decode(ref_encode(m)) == m for "
+          "every m <= 6..10 bytes; the REAL qmail-remote blast() composed with the REAL qmail-smtpd blast() for every message <= 5..7 bytes; commands() resumes "
+          "with exactly the bytes after the terminator.",
+  "note": "ideal byte streams (C20 layer-0 lemmas); qmail_* cut to observing stubs; recorded judgement: a line '.CR<non-LF>' may keep or lose its dot; "
+          "streams longer than the bound, time-outs outside.",
+ },
+ "C19": {
+  "design_ref": "DESIGN.md 4 C19",
+  "text": "Bounded model checking of qmail-pop3d.c: RETR/TOP output vs a reference encoder for every file of up to 6 bytes (8 thorough) and TOP 0..9; "
+          "sessions over a 2-message table from ARBITRARY deletion marks (K=1 is the inductive step, K=2 quick, K=3 thorough): fixed numbering, bad numbers "
+          "refused without effect, unlink only at QUIT and only for marked messages, rename new/ -> cur/:2,; msgno() for numbers of up to 25 digits; getlist over "
+          "a directory model; main() refuses uid 0 before anything else; qmail-popup: only USER/PASS/APOP/NOOP/QUIT honoured, descriptor 3 carries exactly "
+          "user NUL pass NUL timestamp NUL.",
+  "note": "STAT's count outside (as the property says); arguments <= 3 bytes in sessions; files vanishing mid-session only as open failure; ordering among "
+          "equal mtimes not demanded.",
+ },
  "C06": {
   "design_ref": "DESIGN.md 4 C06",
   "text": "Bounded model checking of the real qmail-remote.c blast(): for EVERY message of up to N bytes (N=6 quick, 8 thorough; all "
